@@ -63,6 +63,30 @@ Proof.
   exists e. split; [exact Hp|]. rewrite Hab. apply paren_equiv.
 Qed.
 
+(** abbreviated and unabbreviated spellings: the spelling of a derivable tree with EVERY abbreviation
+    that applies ([//], [.], [..], [@], omitted [child::], [n] for [position()=n]) parses to a
+    tree equivalent to the unabbreviated one *)
+Lemma parse_spell_abbreviated_proof : forall (a : xexpr) (w : wtree),
+  wfb a = true -> no_fname_case a = true -> ws_ok w = true ->
+  exists e, parse_expr (spell_surface (abbreviate a) w) = POk e [] /\ abs_or e ≈ a.
+Proof.
+  intros a w Hwf Hn Hw.
+  destruct (parse_spell_surface_all (abbreviate a) w (abbreviate_wf a Hwf) (abbreviate_nfc a Hn) Hw) as (e & Hp & Hab).
+  exists e. split; [exact Hp|]. rewrite Hab. apply abbreviate_equiv.
+Qed.
+
+(** two spellings of one tree parse to equivalent trees *)
+Lemma spellings_agree_proof : forall a sp1 sp2,
+  ok_spelling a sp1 -> ok_spelling a sp2 ->
+  no_fname_case (surface sp1) = true -> no_fname_case (surface sp2) = true ->
+  exists e1 e2, parse_expr (spell a sp1) = POk e1 [] /\ parse_expr (spell a sp2) = POk e2 [] /\ abs_or e1 ≈ abs_or e2.
+Proof.
+  intros a sp1 sp2 H1 H2 N1 N2.
+  destruct (parse_spell_proof a sp1 H1 N1) as (e1 & P1 & E1).
+  destruct (parse_spell_proof a sp2 H2 N2) as (e2 & P2 & E2).
+  exists e1, e2. split; [exact P1|]. split; [exact P2|]. unfold xequiv in *. congruence.
+Qed.
+
 (** ** precedence and associativity *)
 
 (** operands: any derivable tree of the rung that needs no parentheses as an operand *)
